@@ -53,7 +53,12 @@ def gen_tree(rng, n_secs, depth_max):
               # stored through the constructor, as a reader does: nothing is fetched
               "repository": rng.choice(REPOS)}
         for k in range(rng.choice([0, 0, 1, 2])):
-            nd["props"].append({"name": "p%d" % k, "values": rng.choice([1, [1, 2], "x", ["a", "b"], 2.5]),
+            # now and then a Property is named like Sections are: a Section and a Property of one
+            # name under one parent are different children
+            pname = "p%d" % k if rng.random() < 0.8 else rng.choice(NAMES)
+            if any(p["name"] == pname for p in nd["props"]):
+                continue
+            nd["props"].append({"name": pname, "values": rng.choice([1, [1, 2], "x", ["a", "b"], 2.5]),
                                 "unit": rng.choice([None, None, "mV"])})
         return nd
 
@@ -180,6 +185,9 @@ def generate(run_seed):
     script = []
     if rng.random() < 0.25:
         script.append("restart")
+    if any("include" in l for l in links) and rng.random() < 0.4:
+        # the included file is not there yet: finalize fails, the file appears, everything works
+        script.append("finalize_include_missing")
     script.append("finalize")
     for _ in range(rng.randint(1, 6)):
         script.append(rng.choice(["clean", "finalize", "clean", "save_check", "restart", "cycle",
@@ -372,6 +380,21 @@ def run_case(case):
                     if vio is None and edited:
                         base = W.tree(W.doc)
                         edited = False
+                elif op == "finalize_include_missing":
+                    if not resolved and os.path.exists(inc_path):
+                        hidden = inc_path + ".hidden"
+                        os.rename(inc_path, hidden)
+                        try:
+                            try:
+                                W.doc.finalize()
+                            except Exception:
+                                pass            # an include that cannot be fetched is refused (C06)
+                            W.doc.clean()
+                        finally:
+                            os.rename(hidden, inc_path)
+                        # links that were resolved before the include failed are unresolved again;
+                        # nothing of the failed attempt may stand in the way of the next finalize
+                        base = W.tree(W.doc)
                 elif op == "grow_target":
                     picks = [(lk, tgt) for lk, tgt, kind in lks if kind == "link" and tgt is not None]
                     if picks:
